@@ -14,6 +14,7 @@ import (
 	"encoding/json"
 	"errors"
 	"fmt"
+	"io"
 	"sort"
 	"strings"
 	"sync"
@@ -47,11 +48,13 @@ type c33Listed struct {
 	Seg     int  `json:"seg"` // index into Segs
 	ClaimOK bool `json:"claim_ok"`
 	Fault   int  `json:"fault"`
+	Class   int  `json:"class,omitempty"` // error class of the injected failure (claim failure or fault), see c33Err
 }
 type c33Cycle struct {
 	ListFail  bool        `json:"list_fail,omitempty"`
 	Listing   []c33Listed `json:"listing"`
 	LoseLease bool        `json:"lose_lease,omitempty"` // the pending lease renewal after this cycle fails (if one is pending)
+	Class     int         `json:"class,omitempty"`      // error class of the listing failure / lease renewal failure
 }
 type c33Case struct {
 	Noop   bool       `json:"noop"` // use the module's real no-op checkpoint store
@@ -105,10 +108,100 @@ type c33World struct {
 	endLease  int // value of lease after the last cycle, before shutdown releases it
 	renewWait bool
 	renewCh   chan error
+	cancel    context.CancelFunc // cancels the processor's ctx
+	cancelled bool               // ... and it was used (class cancel-run)
+	ended     bool               // Run returned before the script was over
 	anomalies []string
 }
 
 var errC33 = errors.New("c33: injected transient failure")
+
+// Error classes: WHAT a failing dependency returns is a generated dimension; the
+// processors must treat every non-nil error of a fault point as a failure of that
+// step, whatever it wraps or implements (the processor's own ctx stays alive, except
+// for the last class).
+const (
+	c33EPlain         = iota
+	c33EWrapDeadline  // fmt.Errorf("...: %w", context.DeadlineExceeded): a client-side timeout inside the dependency
+	c33EWrapCanceled  // wrapped context.Canceled: a per-request context inside the dependency
+	c33EDeadline      // context.DeadlineExceeded itself
+	c33ECanceled      // context.Canceled itself
+	c33EEOF           // io.EOF
+	c33EUnexpectedEOF // io.ErrUnexpectedEOF
+	c33ENetTimeout    // a net.Error with Timeout() == true
+	c33ETemporary     // an error implementing Temporary() bool
+	c33EJoin          // errors.Join of several of the above
+	c33ETyped         // a pointer-typed error value
+	c33ETypedNil      // a nil pointer of an error type stored in the error interface (err != nil holds)
+	c33ECancelRun     // the processor's OWN ctx is cancelled at this point and ctx.Err() is returned
+	c33EClasses
+)
+
+var c33ClassNames = []string{"plain", "wrap-deadline", "wrap-canceled", "deadline", "canceled", "eof", "unexpected-eof",
+	"net-timeout", "temporary", "join", "typed", "typed-nil", "cancel-run"}
+
+type c33NetErr struct{}
+
+func (c33NetErr) Error() string   { return "c33: i/o timeout" }
+func (c33NetErr) Timeout() bool   { return true }
+func (c33NetErr) Temporary() bool { return true }
+
+type c33TempErr struct{}
+
+func (c33TempErr) Error() string   { return "c33: temporarily unavailable" }
+func (c33TempErr) Temporary() bool { return true }
+
+type c33TypedErr struct{ code int }
+
+func (e *c33TypedErr) Error() string {
+	if e == nil {
+		return "c33: typed nil error"
+	}
+	return fmt.Sprintf("c33: typed error %d", e.code)
+}
+
+func (w *c33World) mkErr(class int) error {
+	switch class {
+	case c33EWrapDeadline:
+		return fmt.Errorf("c33: request failed: %w", context.DeadlineExceeded)
+	case c33EWrapCanceled:
+		return fmt.Errorf("c33: request failed: %w", context.Canceled)
+	case c33EDeadline:
+		return context.DeadlineExceeded
+	case c33ECanceled:
+		return context.Canceled
+	case c33EEOF:
+		return io.EOF
+	case c33EUnexpectedEOF:
+		return io.ErrUnexpectedEOF
+	case c33ENetTimeout:
+		return c33NetErr{}
+	case c33ETemporary:
+		return c33TempErr{}
+	case c33EJoin:
+		return errors.Join(errC33, fmt.Errorf("c33: %w", context.DeadlineExceeded), io.ErrUnexpectedEOF)
+	case c33ETyped:
+		return &c33TypedErr{code: 7}
+	case c33ETypedNil:
+		var e *c33TypedErr
+		return e
+	case c33ECancelRun:
+		if w.cancel != nil {
+			w.cancel()
+			w.cancelled = true
+		}
+		return fmt.Errorf("c33: %w", context.Canceled)
+	}
+	return errC33
+}
+
+// errHere: the error of the fault hitting the segment being processed.
+func (w *c33World) errHere() error {
+	if w.armed == nil || w.cur < 0 || w.cur >= len(w.armed.Listing) {
+		return errC33
+	}
+	return w.mkErr(w.armed.Listing[w.cur].Class)
+}
 
 func (w *c33World) anomaly(f string, a ...any) {
 	w.anomalies = append(w.anomalies, fmt.Sprintf(f, a...))
@@ -124,7 +217,7 @@ func (w *c33World) List() ([]int, error) {
 	w.cur = -1
 	w.claims = 0
 	if w.armed.ListFail {
-		return nil, errC33
+		return nil, w.mkErr(w.armed.Class)
 	}
 	out := make([]int, len(w.armed.Listing))
 	for i, l := range w.armed.Listing {
@@ -146,7 +239,7 @@ func (w *c33World) Claim(part int) error {
 		w.anomaly("ClaimLease #%d for partition %d, listing has %d", j, part, w.cs.Segs[w.armed.Listing[j].Seg].Part)
 	}
 	if !w.armed.Listing[j].ClaimOK {
-		return errC33
+		return w.mkErr(w.armed.Listing[j].Class)
 	}
 	w.lease = part
 	return nil
@@ -170,7 +263,7 @@ func (w *c33World) Load(part int) (int64, error) {
 		w.cur = k
 	}
 	if w.fault() == c33FLoad {
-		return 0, errC33
+		return 0, w.errHere()
 	}
 	if c, ok := w.committed[part]; ok {
 		return c, nil
@@ -199,7 +292,7 @@ func (w *c33World) Decode(seg int) ([]c33Rec, int, error) {
 		return nil, 0, errC33
 	}
 	if w.fault() == c33FDecode {
-		return nil, 0, errC33
+		return nil, 0, w.errHere()
 	}
 	return w.cs.Segs[seg].Recs, w.cs.Segs[seg].Part, nil
 }
@@ -208,7 +301,7 @@ func (w *c33World) Fetch() error {
 	w.mu.Lock()
 	defer w.mu.Unlock()
 	if w.fault() == c33FLfs {
-		return errC33
+		return w.errHere()
 	}
 	return nil
 }
@@ -217,7 +310,7 @@ func (w *c33World) Write(recs []c33W) error {
 	w.mu.Lock()
 	defer w.mu.Unlock()
 	if w.fault() == c33FSink {
-		return errC33
+		return w.errHere()
 	}
 	w.written = append(w.written, recs...)
 	w.cycWrites = append(w.cycWrites, recs...)
@@ -229,10 +322,10 @@ func (w *c33World) Commit(part int, off int64) error {
 	defer w.mu.Unlock()
 	switch w.fault() {
 	case c33FCommitPre:
-		return errC33
+		return w.errHere()
 	case c33FCommitPost:
 		w.committed[part] = off
-		return errC33
+		return w.errHere()
 	}
 	w.committed[part] = off
 	return nil
@@ -269,6 +362,7 @@ func c33Execute(t *testing.T, cs c33Case) (obs []c33Obs, w *c33World) {
 	synctest.Test(t, func(t *testing.T) {
 		w.renewCh = make(chan error) // bubble-local: blocking on it is durable for synctest.Wait
 		ctx, cancel := context.WithCancel(context.Background())
+		w.cancel = cancel
 		run := c33NewProcessor(w, cs.Noop)
 		done := make(chan error, 1)
 		go func() { done <- run(ctx) }()
@@ -292,12 +386,26 @@ func c33Execute(t *testing.T, cs c33Case) (obs []c33Obs, w *c33World) {
 			pending := w.renewWait
 			w.armed = nil
 			w.mu.Unlock()
+			w.mu.Lock()
+			cancelled := w.cancelled
+			w.mu.Unlock()
+			if cancelled { // the processor's own ctx was cancelled during this cycle: Run has to return
+				obs = append(obs, o)
+				select {
+				case <-done:
+					done <- nil
+				case <-time.After(time.Minute):
+					w.anomaly("Run did not return after its context was cancelled")
+				}
+				w.ended = true
+				break
+			}
 			if pending {
 				w.mu.Lock()
 				w.renewWait = false
 				w.mu.Unlock()
 				if cycles[i].LoseLease {
-					w.renewCh <- errC33
+					w.renewCh <- w.mkErr(cycles[i].Class % c33ECancelRun)
 					o.leaseLost = true
 				} else {
 					w.renewCh <- nil
@@ -359,7 +467,9 @@ func c33Oracle(cs c33Case, obs []c33Obs, w *c33World) (string, string, string) {
 		_ = lease
 	}
 	// clause 2: after the final fault-free cycle listing everything, every record of the leased partition is written
-	if w.endLease >= 0 {
+	if w.ended {
+		// the processor's own context was cancelled: Run returned, no further cycle can deliver anything
+	} else if w.endLease >= 0 {
 		for si, sg := range cs.Segs {
 			if sg.Part != w.endLease {
 				continue
@@ -442,9 +552,32 @@ func c33Gen(r *vRand, lfsAllowed bool) c33Case {
 					l.Fault = c33FDecode
 				}
 			}
+			if (l.Fault != 0 || !l.ClaimOK) && r.Chance(65) {
+				l.Class = r.Range(1, c33ECancelRun-1)
+			}
 			cy.Listing = append(cy.Listing, l)
 		}
+		if (cy.ListFail || cy.LoseLease) && r.Chance(65) {
+			cy.Class = r.Range(1, c33ECancelRun-1)
+		}
 		cs.Cycles = append(cs.Cycles, cy)
+	}
+	if r.Chance(6) { // once in a while the processor's own context is cancelled at a fault point
+		cy := &cs.Cycles[r.Intn(len(cs.Cycles))]
+		if len(cy.Listing) > 0 {
+			l := &cy.Listing[r.Intn(len(cy.Listing))]
+			if l.Fault == 0 {
+				if cs.Noop {
+					l.Fault = c33FSink
+				} else {
+					l.Fault = r.Range(1, 6)
+					if l.Fault == c33FLfs && !lfsAllowed {
+						l.Fault = c33FSink
+					}
+				}
+			}
+			l.Class = c33ECancelRun
+		}
 	}
 	return cs
 }
@@ -469,7 +602,7 @@ func c33ValidCase(cs c33Case) bool {
 	for _, cy := range cs.Cycles {
 		seen := map[int]bool{}
 		for _, l := range cy.Listing {
-			if l.Seg < 0 || l.Seg >= len(cs.Segs) || seen[l.Seg] || l.Fault < 0 || l.Fault > c33FCommitPost {
+			if l.Seg < 0 || l.Seg >= len(cs.Segs) || seen[l.Seg] || l.Fault < 0 || l.Fault > c33FCommitPost || l.Class < 0 || l.Class >= c33EClasses || cy.Class < 0 || cy.Class >= c33EClasses {
 				return false
 			}
 			seen[l.Seg] = true
@@ -574,6 +707,20 @@ func c33Corpus(lfsAllowed bool) []c33Case {
 				{ListFail: true}, {Listing: []c33Listed{{Seg: 0, ClaimOK: true}, {Seg: 1, ClaimOK: true}, {Seg: 2, ClaimOK: true, Fault: c33FCommitPost}}, LoseLease: true},
 				{Listing: []c33Listed{{Seg: 0, ClaimOK: true}, {Seg: 1, ClaimOK: true}, {Seg: 2, ClaimOK: true}}, LoseLease: true}}},
 	}
+	// error classes: a failing sink / decoder / store whose error wraps a context error, is an EOF, a
+	// net timeout, ... while the processor's own context is alive is still a failure of that step
+	for _, cl := range []int{c33EWrapDeadline, c33EWrapCanceled, c33ECanceled, c33EEOF, c33ENetTimeout, c33EJoin, c33ETypedNil} {
+		for _, f := range []int{c33FSink, c33FDecode, c33FLoad} {
+			corpus = append(corpus,
+				c33Case{Segs: []c33Seg{{Part: 0, Recs: []c33Rec{{Off: 0}, {Off: 1}}}},
+					Cycles: []c33Cycle{{Listing: []c33Listed{{Seg: 0, ClaimOK: true, Fault: f, Class: cl}}}}},
+				c33Case{Segs: []c33Seg{{Part: 0, Recs: []c33Rec{{Off: 0}, {Off: 1}}}, {Part: 0, Recs: []c33Rec{{Off: 2}}}},
+					Cycles: []c33Cycle{{Listing: []c33Listed{{Seg: 0, ClaimOK: true, Fault: f, Class: cl}, {Seg: 1, ClaimOK: true}}}}})
+		}
+	}
+	// the processor's own context is cancelled while the sink is writing: Run returns, nothing is committed
+	corpus = append(corpus, c33Case{Segs: []c33Seg{{Part: 0, Recs: []c33Rec{{Off: 0}, {Off: 1}}}, {Part: 0, Recs: []c33Rec{{Off: 2}}}},
+		Cycles: []c33Cycle{{Listing: []c33Listed{{Seg: 0, ClaimOK: true, Fault: c33FSink, Class: c33ECancelRun}, {Seg: 1, ClaimOK: true}}}}})
 	if lfsAllowed {
 		// (c) a transient blob fetch error must not drop the record
 		corpus = append(corpus, c33Case{Segs: []c33Seg{{Part: 0, Recs: []c33Rec{{Off: 0}, {Off: 1, Lfs: true}, {Off: 2}}}},
@@ -583,7 +730,7 @@ func c33Corpus(lfsAllowed bool) []c33Case {
 }
 
 func c33Main(t *testing.T, name string, lfsAllowed bool) {
-	rep := vNewReport("C33", "module "+name+": generated universes (1-6 segments over 1-3 partitions, 0-4 records each, offset gaps, first offset 0 or >0), 1-6 scripted polling cycles (growing per-partition-prefix listings, list failure, claim failures, one fault per listed segment out of load/decode/lfs/sink/commit-pre/commit-post, lease loss) plus a final fault-free cycle, run on the real Processor.Run under synctest; non-trivial = at least one fault hit a processed segment and a later cycle wrote records; distinct = distinct canonical case JSON")
+	rep := vNewReport("C33", "module "+name+": every injected failure carries a generated error class (plain, wrapped/bare context.DeadlineExceeded/Canceled, io.EOF, io.ErrUnexpectedEOF, net timeout, Temporary(), errors.Join, typed pointer, typed nil pointer; rarely: the processor's own ctx is cancelled at the fault point); generated universes (1-6 segments over 1-3 partitions, 0-4 records each, offset gaps, first offset 0 or >0), 1-6 scripted polling cycles (growing per-partition-prefix listings, list failure, claim failures, one fault per listed segment out of load/decode/lfs/sink/commit-pre/commit-post, lease loss) plus a final fault-free cycle, run on the real Processor.Run under synctest; non-trivial = at least one fault hit a processed segment and a later cycle wrote records; distinct = distinct canonical case JSON")
 	var coq, jsons []string
 	runOne := func(cs c33Case) {
 		if !c33ValidCase(cs) {
@@ -598,6 +745,7 @@ func c33Main(t *testing.T, name string, lfsAllowed bool) {
 				if l.Fault != 0 {
 					hit = true
 					rep.Hist(c33FaultNames[l.Fault])
+					rep.Hist("class=" + c33ClassNames[l.Class])
 				}
 			}
 			if cy.ListFail {
